@@ -11,6 +11,10 @@
 (* (to a lossy copy) after a mere read.  The document comes with PRESET    *)
 (* styles (PresetNames: "Body", "Title" ...; their attribute-set token is  *)
 (* their name); applying one is an Apply like any other.  Bug              *)
+(* Edit: an attribute of the style object read from a loaded cell is       *)
+(* assigned in place (cell.style.text_inset = ...); used by the trace      *)
+(* judge for histories recorded on loaded fixture documents (it is not     *)
+(* part of Next: the generator's documents are new ones).                  *)
 (* "PresetKeepsCellStyle": a preset has no cell-level record, so a cell    *)
 (* that had one before keeps it in the file (pinned tree).                 *)
 (***************************************************************************)
@@ -29,6 +33,10 @@ AddStyle(nm, a) == /\ Len(hist) < MaxOps /\ (nm = "AUTO" => \E i \in 1..4 : Auto
                    /\ UNCHANGED <<shown, readflag, disk, diskNamed>> /\ Ev([op |-> "add", nm |-> nm, a |-> a])
 Apply(c, name) == /\ Len(hist) < MaxOps /\ name \in DOMAIN named /\ shown' = [shown EXCEPT ![c] = named[name]]
                   /\ UNCHANGED <<named, readflag, disk, diskNamed>> /\ Ev([op |-> "apply", c |-> c, nm |-> name])
+\* the Style object a cell of a LOADED document hands out is that cell's own: assigning to one of its attributes changes what this
+\* cell shows (attribute set a = the old set with the one attribute replaced) and nothing else
+Edit(c, a) == /\ Len(hist) < MaxOps /\ disk # <<>> /\ shown' = [shown EXCEPT ![c] = a]
+              /\ UNCHANGED <<named, readflag, disk, diskNamed>> /\ Ev([op |-> "edit", c |-> c, a |-> a])
 ReadStyle(c) == /\ Len(hist) < MaxOps /\ readflag' = [readflag EXCEPT ![c] = TRUE] /\ UNCHANGED <<named, shown, disk, diskNamed>> /\ Ev([op |-> "read", c |-> c])
 Save == /\ Len(hist) < MaxOps
         /\ diskNamed' = named
